@@ -956,6 +956,387 @@ def case_c04(rng, m, depth=None):
     return g
 
 
+# ---------------------------------------------------------------------------------------------
+# shared payloads: the SAME payload in blocks of sibling forks, one holder goes away, the payload is repeated
+# ---------------------------------------------------------------------------------------------
+SHARED_KINDS = ["vbk", "vtb", "atv"]
+# how one holder of the shared payload disappears:
+#   rm     removeSubtree of a fork holder            rmpl   removePayloads of a fork holder
+#   mpgen  the mempool's temporary block on the active tip takes the payload and is removed again
+#   mpfail the mempool's temporary block tries the payload, the command fails, the payload is withdrawn (ATV only)
+#   fin    a fork holder is deallocated as a "parallel" block when its sibling on the active chain is finalized
+SHARED_PATHS = ["rm", "rmpl", "mpgen", "mpfail", "fin"]
+
+
+def shared_combos():
+    out = []
+    for p in SHARED_PATHS:
+        for k in SHARED_KINDS:
+            if p == "mpfail" and k != "atv":
+                continue
+            if p == "fin" and k == "atv":
+                continue          # an ATV repeated above a finalization distance is expired anyway
+            out.append((k, p))
+    return out
+
+
+def _shared_payload(g, kind, base):
+    """a payload that is valid in a child of `base` on every fork (keyword arguments of set_pd)"""
+    r = g.r
+    if kind == "vbk":
+        v = g.fresh_vbk()
+        for _ in range(r.below(2)):
+            v = g.fresh_vbk(v)
+        return dict(extra_ctx=[v])
+    if kind == "vtb":
+        return dict(vtbs=[g.honest_vtb(g.alt[base]["kbref"], fork=(0, 1))])
+    return dict(atvs=[g.make_atv(base, payout=r.choice(["010203", "aabb", "cc"]))])
+
+
+def _hold(g, parent, P, extra=True):
+    """new block on `parent` carrying the shared payload (sometimes next to an own honest ATV)"""
+    r = g.r
+    X = g.new_alt(parent)
+    kw = {k: list(v) for k, v in P.items()}
+    if extra and parent != "a0" and r.chance(1, 3):
+        kw["atvs"] = kw.get("atvs", []) + [g.make_atv(parent)]
+        if r.chance(1, 2):
+            kw["atvs"].reverse()
+    g.set_pd(X, **kw)
+    return X
+
+
+def _repeat_same_chain(g, kind, P, parent, holder):
+    """new block on `parent` repeating the shared payload that `holder` (an ancestor) already carries"""
+    r = g.r
+    X = g.new_alt(parent)
+    if kind == "vbk":
+        known = g.alt[parent]["kv"]
+        shared = [v for v in g.alt[holder]["ctx"]] or list(P["extra_ctx"])
+        v = P["extra_ctx"][0] if r.chance(2, 3) else r.choice(shared)
+        g.set_pd(X, ctx=[v])
+        g.alt[X]["kv"] = set(known)
+    else:
+        g.set_pd(X, **P)          # its VBK context is known to the chain already: only the VTB / ATV is repeated
+    return X
+
+
+def _refused(g, X, with_desc=True):
+    r = g.r
+    desc = []
+    d = X
+    if with_desc:
+        for _ in range(r.below(2)):
+            d = g.hblock(d, n_atv=0, n_vtb=0)
+            desc.append(d)
+    g.show(desc[-1] if desc else X)
+    attempts(g, X, desc, True)
+    g.on("valid", X, tag=("inv", X))
+    g.on("tip", tag=("notin", X))
+    g.on("audit", tag=("audit",))
+    g.planted[X] = "shared"
+
+
+def _forget(g, x):
+    for y in g.subtree(x):
+        g.hdr.discard(y)
+        g.body.discard(y)
+
+
+def case_shared(rng, kind, path):
+    """the same payload (VBK context block / VTB / ATV) sits in blocks of sibling forks (2, sometimes 3 holders);
+    one holder disappears (`path`); then the payload is repeated
+      (a) in a chain that still holds it -> must be refused (before and after the holder disappeared),
+      (b) in a chain that does not hold it (any more) -> accepted."""
+    r = rng
+    if path == "fin":
+        return _case_shared_fin(r, kind)
+    g = RulesGen(r, small_cfg(r))
+    s = g.settle()
+    main = grow(g, "a0", r.range(1, 3))
+    base = main[-1]
+    if r.chance(1, 3):
+        g.show(base)
+        g.on("set", base, tag=("accept", base))
+    if path == "mpfail":
+        # base - N.. (active)      base - F1 - F2{t endorses F1}: t can only ever be valid in F1's chain
+        N = grow(g, base, r.range(1, 2), rich=(1, 3))
+        F1 = g.hblock(base, n_atv=0, n_vtb=0)
+        P = dict(atvs=[g.make_atv(F1)])
+        F2 = _hold(g, F1, P, extra=False)
+        g.show(F2)
+        g.show(N[-1])
+        g.on("set", N[-1], tag=("accept", N[-1]))
+        t = P["atvs"][0]
+        for v in g.alt[F2]["ctx"]:
+            g.on("mpsub", "vbk", v)
+        g.on("mpsub", "atv", t)
+        D = g.new_alt(N[-1])
+        g.on("mpgen", D)
+        g.decl("pd", D, "-", "-", "-")
+        g.on("audit", tag=("audit",))
+        X = _repeat_same_chain(g, "atv", P, F2, F2)
+        _refused(g, X)
+        g.verdict(F2, tag=("accept", F2))
+        g.on("audit", tag=("audit",))
+        g.meta = dict(mutation="shared_atv_mpfail", X=X, P=F2, planted=True, depth=g.alt[X]["height"], desc=0,
+                      expect_kind="dup", holders=1)
+        return g
+    P = _shared_payload(g, kind, base)
+    # chain A (will be active) and the fork holders; for an ATV every repetition stays inside the settlement interval
+    A1 = _hold(g, base, P)
+    between = r.below(s - 1) if kind == "atv" else r.below(3)
+    A = [A1]
+    tipA = A1
+    for _ in range(between):
+        tipA = g.hblock(tipA, n_atv=0, n_vtb=0)
+        A.append(tipA)
+    F1 = _hold(g, base, P)
+    three = r.chance(1, 3)
+    G1 = _hold(g, base, P) if three else None
+    mp = path == "mpgen"
+    # delivery: every holder is known to the instance with its body; A (or, for the mempool path, a chain without
+    # the payload) is active
+    order = [tipA, F1] + ([G1] if G1 else [])
+    r.shuffle(order)
+    for x in order:
+        g.show(x)
+        if not mp and r.chance(1, 3):
+            g.on("set", x, tag=("accept", x))      # the other forks have been active once
+    if mp:
+        N = grow(g, base, 1 if kind == "atv" else r.range(1, 2), rich=(1, 3))
+        g.show(N[-1])
+        g.on("set", N[-1], tag=("accept", N[-1]))
+    else:
+        g.on("set", tipA, tag=("accept", tipA))
+    g.on("audit", tag=("audit",))
+    # (a) while every holder is still there
+    if r.chance(1, 2):
+        E = _repeat_same_chain(g, kind, P, tipA, A1)
+        g.show(E)
+        g.verdict(E, tag=("refuse", E))
+        g.on("valid", E, tag=("inv", E))
+        g.planted[E] = "shared"
+    # one holder disappears
+    if path == "rm":
+        if r.chance(1, 3):
+            c = g.hblock(F1, n_atv=0, n_vtb=0)      # ... with a descendant
+            g.show(c)
+        g.on("rm", F1)
+        _forget(g, F1)
+    elif path == "rmpl":
+        if r.chance(1, 3):
+            c = g.new_alt(F1)                        # a header-only child does not prevent removePayloads
+            g.set_pd(c)
+            g.on("hdr", c)
+            g.hdr.add(c)
+        g.on("rmpl", F1)
+        g.body.discard(F1)
+    else:
+        # the mempool receives the payload (valid on the active chain N, which does not hold it) and builds a body
+        for v in g.alt[F1]["ctx"]:
+            g.on("mpsub", "vbk", v)
+        for w in P.get("vtbs", []):
+            g.on("mpsub", "vtb", w)
+        for t in P.get("atvs", []):
+            g.on("mpsub", "atv", t)
+        D = g.new_alt(N[-1])
+        g.on("mpgen", D)
+        g.decl("pd", D, "-", "-", "-")
+    g.on("audit", tag=("audit",))
+    # (a) the chains that still hold the payload refuse its repetition
+    still = [(tipA, A1)] + ([(G1, G1)] if G1 else []) + ([(F1, F1)] if mp else [])
+    r.shuffle(still)
+    first = True
+    for par, holder in still:
+        if not first and r.chance(1, 2):
+            continue
+        X = _repeat_same_chain(g, kind, P, par, holder)
+        _refused(g, X, with_desc=first)
+        first = False
+    # (b) a chain that does not hold it (any more) accepts it
+    if path == "rm":
+        n1 = g.hblock(base, n_atv=0, n_vtb=0)
+        C = _hold(g, n1, P)
+    elif path == "rmpl":
+        g.set_pd(F1)                 # the block comes again with another (empty) body
+        C = _hold(g, F1, P)
+    else:
+        C = _hold(g, N[-1], P)
+    g.show(C)
+    g.verdict(C, tag=("accept", C))
+    g.on("audit", tag=("audit",))
+    # ... and from then on holds it
+    if r.chance(1, 2):
+        X = _repeat_same_chain(g, kind, P, C, C)
+        _refused(g, X, with_desc=False)
+    g.on("set", tipA, tag=("accept", tipA))
+    g.on("audit", tag=("audit",))
+    H = g.hblock(tipA, fork=(0, 1))
+    g.show(H)
+    g.verdict(H, tag=("accept", H))
+    g.on("audit", tag=("audit",))
+    g.meta = dict(mutation="shared_%s_%s" % (kind, path), X=A1, P=base, planted=True, depth=g.alt[A1]["height"],
+                  desc=between, expect_kind="dup", holders=3 if three else 2)
+    return g
+
+
+def _case_shared_fin(rng, kind):
+    """L - M1 - A{P} - ... - tip        M1 becomes final while its sibling F1{P} (a "parallel" block) is deallocated;
+         \\ F1{P}                        A is not final yet; then P is repeated on the tip."""
+    r = rng
+    g = RulesGen(r, small_cfg(r, True))
+    mr, pres = g.cfg["alt_maxreorg"], g.cfg["alt_preserve"]
+    main = grow(g, "a0", pres + r.range(0, 1), rich=(1, 4))
+    L = main[-1]
+    P = _shared_payload(g, kind, L)
+    M1 = g.hblock(L, n_atv=0, n_vtb=0)
+    F1 = _hold(g, L, P, extra=False)
+    A1 = _hold(g, M1, P, extra=False)
+    up = [M1, A1] + grow(g, A1, mr - 1, rich=(1, 4))       # height(tip) = height(M1) + maxReorg
+    tip = up[-1]
+    g.show(F1, order="inorder", headers_first=False)
+    if r.chance(1, 2):
+        for x in main + up:
+            g.show(x, order="inorder", headers_first=False)
+            g.on("set", x, tag=("accept", x))
+            g.on("save")
+            g.on("fin")
+    else:
+        g.show(tip, order="inorder", headers_first=False)
+        g.on("set", tip, tag=("accept", tip))
+        g.on("save")
+        g.on("fin")
+    g.on("audit", tag=("audit",))
+    X = _repeat_same_chain(g, kind, P, tip, A1)
+    g.show(X, order="inorder", headers_first=False)
+    attempts(g, X, [], True)
+    g.on("valid", X, tag=("inv", X))
+    g.on("tip", tag=("notin", X))
+    g.on("audit", tag=("audit",))
+    g.planted[X] = "shared"
+    H = g.hblock(tip, n_atv=0, n_vtb=0)
+    g.show(H, order="inorder", headers_first=False)
+    g.verdict(H, tag=("accept", H))
+    g.on("audit", tag=("audit",))
+    g.meta = dict(mutation="shared_%s_fin" % kind, X=X, P=tip, planted=True, depth=g.alt[X]["height"], desc=0,
+                  expect_kind="dup", holders=2)
+    return g
+
+
+# ---------------------------------------------------------------------------------------------
+# restarts: the history contains incremental saves and a reload (a fresh instance loaded from the storage goes on)
+# ---------------------------------------------------------------------------------------------
+# BTC blocks referenced by SEVERAL applied VTBs contained at different VBK heights; one of the VTBs is un-applied
+# again (the references shrink but stay non-empty); then a VTB that is valid only through the withdrawn reference.
+RESTART_PATHS = ["setback", "rm", "rmpl"]
+
+
+def case_restart(rng, path):
+    """base - Q1{wHigh} - Q2{wLow}: wLow (contained low, in vLow) and wHigh (contained high, in vH above vLow) carry the
+    SAME BTC context blocks. Q2 is active at a save point, then wLow is withdrawn (set back to Q1 / Q2 removed / its
+    payloads removed), saved again and the instance restarts. X{wB} on Q1: wB is contained in vMid (between vLow and
+    vH) and connects to the shared BTC blocks, which Q1's chain references only from vH on -> too early, refused.
+    On Q2 (which references them from vLow on) the same wB is fine."""
+    r = rng
+    g = RulesGen(r, small_cfg(r))
+    main = grow(g, "a0", r.range(1, 2))
+    base = main[-1]
+    if r.chance(1, 2):
+        g.show(base)
+        g.on("set", base, tag=("accept", base))
+        if r.chance(1, 2):
+            g.on("save")
+    ref = g.alt[base]["kbref"]
+    vp = g.vtip
+    last0 = g.best_last(ref, vp)[-1]
+    c = g.btip if g.b_is_anc(last0, g.btip) else last0
+    for _ in range(r.range(1, 3)):
+        c = g.mine_btc(c)
+    while c in g.alt[base]["kb"]:
+        c = g.mine_btc(c)
+    bk = c
+    wLow = g.make_vtb(r.choice(g.v_anc(vp, 2)), last0, vparent=vp, bparent=bk)
+    x = g.vtb[wLow]["containing"]
+    for _ in range(r.below(2)):
+        x = g.mine_vbk(x)
+    # the VTB under test connects to the newest shared block, or to one in the middle of the shared context
+    shared = [b for b in g.vtb[wLow]["bctx"][:-1]]
+    conn = bk if r.chance(2, 3) else r.choice(shared)
+    wB = g.make_vtb(r.choice(g.v_anc(x, 2)), conn, vparent=x, bparent=bk)
+    y = g.vtb[wB]["containing"]
+    for _ in range(r.below(2)):
+        y = g.mine_vbk(y)
+    wHigh = g.make_vtb(r.choice(g.v_anc(y, 2)), last0, vparent=y, bparent=bk)
+    vH = g.vtb[wHigh]["containing"]
+    Q1 = g.new_alt(base)
+    g.set_pd(Q1, vtbs=[wHigh])
+    Q2 = g.new_alt(Q1)
+    g.set_pd(Q2, vtbs=[wLow])
+    g.show(Q2)
+    if r.chance(1, 2):
+        g.on("set", Q1, tag=("accept", Q1))
+        if r.chance(1, 2):
+            g.on("save")
+    g.on("set", Q2, tag=("accept", Q2))
+    g.on("audit", tag=("audit",))
+    g.on("save")
+    # wLow is withdrawn again
+    if path == "setback":
+        g.on("set", Q1, tag=("accept", Q1))
+    elif path == "rm":
+        g.on("rm", Q2)
+        _forget(g, Q2)
+    else:
+        g.on("set", Q1, tag=("accept", Q1))
+        g.on("rmpl", Q2)
+        g.body.discard(Q2)
+    g.on("audit", tag=("audit",))
+    g.on("save")
+    restarted = r.chance(3, 4)
+    if restarted:
+        g.on("reload")
+        g.on("audit", tag=("audit",))
+    # too early on Q1's chain
+    X = g.new_alt(Q1)
+    g.set_pd(X, vtbs=[wB])
+    g.planted[X] = "restart_btcref"
+    desc = []
+    d = X
+    for _ in range(r.below(2)):
+        d = g.hblock(d, n_atv=0, n_vtb=0)
+        desc.append(d)
+    g.show(desc[-1] if desc else X)
+    attempts(g, X, desc, True)
+    g.on("valid", X, tag=("inv", X))
+    g.on("tip", tag=("notin", X))
+    g.on("audit", tag=("audit",))
+    # fine where the low reference is part of the chain
+    if path == "setback":
+        C = g.new_alt(Q2)
+        g.set_pd(C, vtbs=[wB])
+        g.show(C)
+        g.verdict(C, tag=("accept", C))
+        g.on("audit", tag=("audit",))
+        if r.chance(1, 2):
+            g.on("save")
+            g.on("reload")
+            g.on("audit", tag=("audit",))
+    # boundary: contained in a block above vH the same connection is referenced early enough on Q1's chain as well
+    z = vH
+    for _ in range(r.below(2)):
+        z = g.mine_vbk(z)
+    wOk = g.make_vtb(r.choice(g.v_anc(z, 2)), conn, vparent=z, bparent=bk)
+    H = g.new_alt(Q1)
+    g.set_pd(H, vtbs=[wOk])
+    g.show(H)
+    g.verdict(H, tag=("accept", H))
+    g.on("audit", tag=("audit",))
+    g.meta = dict(mutation="restart_btcref_" + path, X=X, P=Q1, planted=True, depth=g.alt[X]["height"], desc=len(desc),
+                  expect_kind="btcctx", restarted=restarted)
+    return g
+
+
 def case_c19(rng, steps=14, mempool=False):
     """honest history: random tree, every block honest, SP forking, every containing height in the window"""
     r = rng
